@@ -13,6 +13,7 @@ D(e, off, len) == P(e, FALSE, TRUE, FALSE, FALSE, off, len)
 Fin(e) == P(e, FALSE, TRUE, TRUE, FALSE, 0, 0)
 FinD(e, off, len) == P(e, FALSE, TRUE, TRUE, FALSE, off, len)
 Rst(e) == P(e, FALSE, FALSE, FALSE, TRUE, 0, 0)
+RstAck(e) == P(e, FALSE, TRUE, FALSE, TRUE, 0, 0)                            \* RST|ACK
 H == <<Syn, SynAck, Ack("c")>>
 \* an ECN-setup handshake (RFC 3168: SYN carries ECE|CWR, SYN+ACK carries ECE), later segments with ECE / CWR / URG
 HE == << [Syn EXCEPT !.x = 192], [SynAck EXCEPT !.x = 64], Ack("c") >>
@@ -31,6 +32,8 @@ Scripts == <<
   H \o <<D("s", 2, 4), D("s", 8, 3), D("s", 0, 2)>>,                                 \* the server direction alone exceeds maxBytes
   H \o <<D("c", 2, 3), D("s", 2, 4), D("c", 0, 2)>>,                                 \* only both directions together exceed maxBytes
   H \o <<D("s", 1, 1), D("c", 1, 1), D("s", 3, 1), D("c", 0, 1)>>,                   \* chunks of both directions together exceed maxChunks
+  <<Syn, SynAck, RstAck("s")>>,                                                      \* accept, then abort: the server's first segment after its SYN|ACK is RST|ACK
+  <<Syn, SynAck, RstAck("c"), D("s", 0, 1)>>,                                        \* the client's first ACK-bearing segment after its SYN is RST|ACK
   HE \o <<[D("c", 0, 2) EXCEPT !.x = 128], [D("s", 0, 2) EXCEPT !.x = 64], [D("c", 2, 1) EXCEPT !.x = 32], [Fin("c") EXCEPT !.x = 64], Fin("s")>>
 >>
 =============================================================================
